@@ -1,3 +1,3 @@
-from . import grayconst, polarrank, primpolys, thresholders
+from . import archs, grayconst, polarrank, primpolys, thresholders
 
-ALL = [primpolys.generate, grayconst.generate, polarrank.generate, thresholders.generate]
+ALL = [primpolys.generate, grayconst.generate, polarrank.generate, thresholders.generate, archs.generate]
